@@ -98,6 +98,14 @@ def toIntegerClip (f : F64) : Int :=
     let v := if f.sign then -m else m
     if v ≥ 2 ^ 63 - 1 then 2 ^ 63 - 1 else if v ≤ -(2 ^ 63 : Int) then -(2 ^ 63 : Int) else v
 
+/-- the mathematical integer part of a double (truncation towards zero, exact for every magnitude); NaN and the
+infinities give 0 — the first step of ECMAScript's ToUint8/ToInt32 family -/
+def toIntegerExact (f : F64) : Int :=
+  if f.isNaN || f.isInf then 0
+  else
+    let m : Int := f.truncMag
+    if f.sign then -m else m
+
 /-- the double that represents integer `n`, when `|n| < 2^53` (exact) -/
 def ofSmallInt (n : Int) : F64 :=
   if n == 0 then ⟨0⟩
